@@ -9,13 +9,17 @@ use any_spawner::{CustomExecutor, Executor, PinnedFuture, PinnedLocalFuture};
 use reactive_graph::{
     computed::Memo,
     effect::{Effect, ImmediateEffect, RenderEffect},
+    graph::untrack,
     owner::Owner,
     signal::ArcTrigger,
-    traits::{Get, Notify, Read, ReadUntracked, Track, With, Write},
+    traits::{
+        DefinedAt, Get, IsDisposed, Notify, Read, ReadUntracked, Set, Track, Update, UpdateUntracked, With, Write,
+    },
+    wrappers::read::Signal,
 };
 use reactive_stores::{
     ArcField, ArcStore, AtKeyed, DerefField, Field, KeyedSubfield, OptionStoreExt, Patch, PatchField, Store, StoreField,
-    StoreFieldIterator,
+    StoreFieldIterator, Subfield,
 };
 use std::{
     cell::RefCell,
@@ -158,10 +162,17 @@ fn drain(sched: &[i64], pos: &mut usize) {
 // ------------------------------------------------------------------------------------------
 // store shapes
 // ------------------------------------------------------------------------------------------
+/// a tuple struct (accessors `field0()` / `field1()`, `Index` locators in derive(Patch)) whose
+/// third field is skipped by derive(Store) (it still occupies index 2) and patched by
+/// `PatchField for ()`
 #[derive(Debug, Clone, Default, PartialEq, Store, Patch)]
-pub struct Leaf {
-    p: i64,
-    q: i64,
+pub struct Leaf(i64, i64, #[store(skip)] ());
+
+/// an item of the keyed collection nested inside a keyed item
+#[derive(Debug, Clone, Default, PartialEq, Store, Patch)]
+pub struct Tag {
+    id: i64,
+    n: i64,
 }
 
 #[derive(Debug, Clone, Default, PartialEq, Store, Patch)]
@@ -169,14 +180,47 @@ pub struct Item {
     id: i64,
     n: i64,
     l: Leaf,
+    #[store(key: i64 = |it| it.id)]
+    kk: Vec<Tag>,
+}
+
+/// derive(Store) on an enum: `a()` / `b()` / `c()` -> bool, `b_0()` / `b_1()` / `c_x()` / `c_y()` ->
+/// `Option<Subfield>`; encoded as (tag fields..)
+#[derive(Debug, Clone, Default, PartialEq, Store)]
+pub enum Choice {
+    #[default]
+    A,
+    B(i64, Leaf),
+    C {
+        x: i64,
+        y: i64,
+    },
+}
+
+/// derive(Patch) does not support enums: patched as a whole
+impl PatchField for Choice {
+    fn patch_field(
+        &mut self,
+        new: Self,
+        path: &reactive_stores::StorePath,
+        notify: &mut dyn FnMut(&reactive_stores::StorePath),
+    ) {
+        if new != *self {
+            *self = new;
+            notify(path);
+        }
+    }
 }
 
 #[derive(Debug, Clone, Default, PartialEq, Store, Patch)]
 pub struct Sub {
+    #[patch(|this, new| *this = new)]
     x: i64,
     l: Leaf,
     v: Vec<i64>,
     b: Box<Leaf>,
+    t: (i64, i64),
+    e: Choice,
 }
 
 /// a boxed value is patched as a whole (reactive_stores has no PatchField for Box)
@@ -196,6 +240,7 @@ impl PatchField for Box<Leaf> {
 
 #[derive(Debug, Clone, Default, PartialEq, Store, Patch)]
 pub struct Mid {
+    #[patch(|this, new| *this = new)]
     x: i64,
     l: Leaf,
     o: Option<Leaf>,
@@ -211,6 +256,7 @@ pub struct Root {
     v: Vec<Sub>,
     #[store(key: i64 = |it| it.id)]
     k: Vec<Item>,
+    e: Choice,
 }
 
 /// everything the harness needs from a store field, whatever its concrete accessor type
@@ -219,6 +265,8 @@ pub trait FldBase<T: 'static>:
     + Track
     + ReadUntracked<Value: Deref<Target = T>>
     + Write<Value = T>
+    + IsDisposed
+    + DefinedAt
     + Clone
     + Send
     + Sync
@@ -230,17 +278,20 @@ impl<T: 'static, S> FldBase<T> for S where
         + Track
         + ReadUntracked<Value: Deref<Target = T>>
         + Write<Value = T>
+        + IsDisposed
+        + DefinedAt
         + Clone
         + Send
         + Sync
         + 'static
 {
 }
-/// ... and it can be handed on as a type-erased `ArcField` (not so a `KeyedSubfield`)
-pub trait Fld<T: 'static>: FldBase<T> + Into<ArcField<T>> {}
-impl<T: 'static, S> Fld<T> for S where S: FldBase<T> + Into<ArcField<T>> {}
+/// ... and it can be handed on as a type-erased `ArcField` / `Field` (not so a `KeyedSubfield`)
+pub trait Fld<T: 'static>: FldBase<T> + Into<ArcField<T>> + Into<Field<T>> {}
+impl<T: 'static, S> Fld<T> for S where S: FldBase<T> + Into<ArcField<T>> + Into<Field<T>> {}
 
 type Step = (i64, i64);
+type BNode = Box<dyn Node>;
 
 /// plain values: (de)serialisation and the typed children of a field holding such a value
 pub trait Val: Sized + Clone + PatchField + Send + Sync + 'static {
@@ -249,14 +300,15 @@ pub trait Val: Sized + Clone + PatchField + Send + Sync + 'static {
     fn has_child(&self, _st: Step) -> bool {
         false
     }
-    fn child<S: FldBase<Self>>(_s: &S, _st: Step) -> Option<Box<dyn Node>> {
+    fn child<S: FldBase<Self>>(_s: &S, _st: Step) -> Option<BNode> {
         None
     }
     fn key(&self) -> Option<i64> {
         None
     }
-    /// for collections: iterate over the field with the store's own iterator, reading every item
-    fn iter_read<S: FldBase<Self>>(_s: &S) -> Option<Sexp> {
+    /// for collections: iterate over the field with the store's own iterator, reading every item;
+    /// dir 0 front to back, 1 `.rev()`, 2 alternately from both ends until they meet
+    fn iter_read<S: FldBase<Self>>(_s: &S, _dir: i64) -> Option<Sexp> {
         None
     }
     /// for options: look at the field through OptionStoreExt::map (how = 6) / invert (how = 7);
@@ -264,15 +316,43 @@ pub trait Val: Sized + Clone + PatchField + Send + Sync + 'static {
     fn opt_read<S: FldBase<Self>>(_s: &S, _how: i64) -> Option<Sexp> {
         None
     }
+    /// for enums: call the generated `fn variant(self) -> bool` accessors (tracked reads of the
+    /// enum field); returns whether they agree with the value
+    fn variant_read<S: FldBase<Self>>(_s: &S) -> Option<bool> {
+        None
+    }
 }
 
-fn node<T: Val, S: Fld<T>>(s: S) -> Option<Box<dyn Node>> {
-    Some(Box::new(N::<S, T>(s, PhantomData, Some(|s: &S| s.clone().into()))))
+fn node<T: Val, S: Fld<T>>(s: S) -> Option<BNode> {
+    Some(Box::new(N::<S, T> {
+        f: s,
+        ty: PhantomData,
+        arc: Some(|s: &S| s.clone().into()),
+        fld: Some(|s: &S| s.clone().into()),
+        sig: None,
+    }))
+}
+
+/// a `Subfield` (struct field getter, `unwrap()`, enum variant field): also converts to a
+/// `Signal<T>` (`From<Subfield> for Signal`)
+fn node_sub<T: Val, Inner, Prev>(s: Subfield<Inner, Prev, T>) -> Option<BNode>
+where
+    Subfield<Inner, Prev, T>: Fld<T>,
+    Inner: StoreField<Value = Prev> + Track + Send + Sync + 'static,
+    Prev: 'static,
+{
+    Some(Box::new(N::<Subfield<Inner, Prev, T>, T> {
+        f: s,
+        ty: PhantomData,
+        arc: Some(|s| s.clone().into()),
+        fld: Some(|s| s.clone().into()),
+        sig: Some(|s| Signal::from(s.clone())),
+    }))
 }
 
 /// an arena-allocated `Field<T>`: a handle that cannot be converted any further
-fn node_field<T: Val>(f: Field<T>) -> Option<Box<dyn Node>> {
-    Some(Box::new(N::<Field<T>, T>(f, PhantomData, None)))
+fn node_field<T: Val>(f: Field<T>) -> Option<BNode> {
+    Some(Box::new(N::<Field<T>, T> { f, ty: PhantomData, arc: None, fld: None, sig: None }))
 }
 
 impl Val for i64 {
@@ -284,40 +364,49 @@ impl Val for i64 {
     }
 }
 
-impl Val for Leaf {
+/// a tuple has no accessors: it is read, written and patched (PatchField for (A, B)) as one field
+impl Val for (i64, i64) {
     fn enc(&self) -> Sexp {
-        Lst(vec![self.p.enc(), self.q.enc()])
+        Lst(vec![self.0.enc(), self.1.enc()])
     }
     fn dec(s: &Sexp) -> Self {
-        Leaf { p: i64::dec(s.at(0)), q: i64::dec(s.at(1)) }
+        (i64::dec(s.at(0)), i64::dec(s.at(1)))
+    }
+}
+
+impl Val for Leaf {
+    fn enc(&self) -> Sexp {
+        Lst(vec![self.0.enc(), self.1.enc()])
+    }
+    fn dec(s: &Sexp) -> Self {
+        Leaf(i64::dec(s.at(0)), i64::dec(s.at(1)), ())
     }
     fn has_child(&self, st: Step) -> bool {
         st.0 == 0 && (0..2).contains(&st.1)
     }
-    fn child<S: FldBase<Self>>(s: &S, st: Step) -> Option<Box<dyn Node>> {
+    fn child<S: FldBase<Self>>(s: &S, st: Step) -> Option<BNode> {
         match st {
-            (0, 0) => node(s.clone().p()),
-            (0, 1) => node(s.clone().q()),
+            (0, 0) => node_sub(s.clone().field0()),
+            (0, 1) => node_sub(s.clone().field1()),
             _ => None,
         }
     }
 }
 
-impl Val for Item {
+impl Val for Tag {
     fn enc(&self) -> Sexp {
-        Lst(vec![self.id.enc(), self.n.enc(), self.l.enc()])
+        Lst(vec![self.id.enc(), self.n.enc()])
     }
     fn dec(s: &Sexp) -> Self {
-        Item { id: i64::dec(s.at(0)), n: i64::dec(s.at(1)), l: Leaf::dec(s.at(2)) }
+        Tag { id: i64::dec(s.at(0)), n: i64::dec(s.at(1)) }
     }
     fn has_child(&self, st: Step) -> bool {
-        st.0 == 0 && (0..3).contains(&st.1)
+        st.0 == 0 && (0..2).contains(&st.1)
     }
-    fn child<S: FldBase<Self>>(s: &S, st: Step) -> Option<Box<dyn Node>> {
+    fn child<S: FldBase<Self>>(s: &S, st: Step) -> Option<BNode> {
         match st {
-            (0, 0) => node(s.clone().id()),
-            (0, 1) => node(s.clone().n()),
-            (0, 2) => node(s.clone().l()),
+            (0, 0) => node_sub(s.clone().id()),
+            (0, 1) => node_sub(s.clone().n()),
             _ => None,
         }
     }
@@ -326,9 +415,83 @@ impl Val for Item {
     }
 }
 
+impl Val for Item {
+    fn enc(&self) -> Sexp {
+        Lst(vec![self.id.enc(), self.n.enc(), self.l.enc(), self.kk.enc()])
+    }
+    fn dec(s: &Sexp) -> Self {
+        Item { id: i64::dec(s.at(0)), n: i64::dec(s.at(1)), l: Leaf::dec(s.at(2)), kk: Vec::<Tag>::dec(s.at(3)) }
+    }
+    fn has_child(&self, st: Step) -> bool {
+        st.0 == 0 && (0..4).contains(&st.1)
+    }
+    fn child<S: FldBase<Self>>(s: &S, st: Step) -> Option<BNode> {
+        match st {
+            (0, 0) => node_sub(s.clone().id()),
+            (0, 1) => node_sub(s.clone().n()),
+            (0, 2) => node_sub(s.clone().l()),
+            (0, 3) => Some(Box::new(NKeyed::<S, Item, Tag>(s.clone().kk()))),
+            _ => None,
+        }
+    }
+    fn key(&self) -> Option<i64> {
+        Some(self.id)
+    }
+}
+
+/// `Choice`: step (6 10*v+i) = field i of variant v, through the generated `Option<Subfield>`
+/// accessor.  The accessor itself does a *tracked* read of the enum field; it is called under
+/// `untrack` (the handle is built for the reader, as a parent component would), so that the
+/// reader reads the variant's field only.
+impl Val for Choice {
+    fn enc(&self) -> Sexp {
+        match self {
+            Choice::A => Lst(vec![Num(0)]),
+            Choice::B(i, l) => Lst(vec![Num(1), i.enc(), l.enc()]),
+            Choice::C { x, y } => Lst(vec![Num(2), x.enc(), y.enc()]),
+        }
+    }
+    fn dec(s: &Sexp) -> Self {
+        match s.at(0).num() {
+            1 => Choice::B(i64::dec(s.at(1)), Leaf::dec(s.at(2))),
+            2 => Choice::C { x: i64::dec(s.at(1)), y: i64::dec(s.at(2)) },
+            _ => Choice::A,
+        }
+    }
+    fn has_child(&self, st: Step) -> bool {
+        st.0 == 6
+            && match self {
+                Choice::A => false,
+                Choice::B(..) => st.1 == 10 || st.1 == 11,
+                Choice::C { .. } => st.1 == 20 || st.1 == 21,
+            }
+    }
+    fn child<S: FldBase<Self>>(s: &S, st: Step) -> Option<BNode> {
+        match st {
+            (6, 10) => untrack(|| s.clone().b_0()).and_then(node_sub),
+            (6, 11) => untrack(|| s.clone().b_1()).and_then(node_sub),
+            (6, 20) => untrack(|| s.clone().c_x()).and_then(node_sub),
+            (6, 21) => untrack(|| s.clone().c_y()).and_then(node_sub),
+            _ => None,
+        }
+    }
+    fn variant_read<S: FldBase<Self>>(s: &S) -> Option<bool> {
+        let (a, b, c) = (s.clone().a(), s.clone().b(), s.clone().c());
+        let tag = s.try_read_untracked().map(|g| match g.deref() {
+            Choice::A => 0,
+            Choice::B(..) => 1,
+            Choice::C { .. } => 2,
+        });
+        Some(match tag {
+            Some(t) => (a, b, c) == (t == 0, t == 1, t == 2),
+            None => !a && !b && !c,
+        })
+    }
+}
+
 impl Val for Sub {
     fn enc(&self) -> Sexp {
-        Lst(vec![self.x.enc(), self.l.enc(), self.v.enc(), self.b.enc()])
+        Lst(vec![self.x.enc(), self.l.enc(), self.v.enc(), self.b.enc(), self.t.enc(), self.e.enc()])
     }
     fn dec(s: &Sexp) -> Self {
         Sub {
@@ -336,17 +499,21 @@ impl Val for Sub {
             l: Leaf::dec(s.at(1)),
             v: Vec::<i64>::dec(s.at(2)),
             b: Box::<Leaf>::dec(s.at(3)),
+            t: <(i64, i64)>::dec(s.at(4)),
+            e: Choice::dec(s.at(5)),
         }
     }
     fn has_child(&self, st: Step) -> bool {
-        st.0 == 0 && (0..4).contains(&st.1)
+        st.0 == 0 && (0..6).contains(&st.1)
     }
-    fn child<S: FldBase<Self>>(s: &S, st: Step) -> Option<Box<dyn Node>> {
+    fn child<S: FldBase<Self>>(s: &S, st: Step) -> Option<BNode> {
         match st {
-            (0, 0) => node(s.clone().x()),
-            (0, 1) => node(s.clone().l()),
-            (0, 2) => node(s.clone().v()),
-            (0, 3) => node(s.clone().b()),
+            (0, 0) => node_sub(s.clone().x()),
+            (0, 1) => node_sub(s.clone().l()),
+            (0, 2) => node_sub(s.clone().v()),
+            (0, 3) => node_sub(s.clone().b()),
+            (0, 4) => node_sub(s.clone().t()),
+            (0, 5) => node_sub(s.clone().e()),
             _ => None,
         }
     }
@@ -363,7 +530,7 @@ impl Val for Box<Leaf> {
     fn has_child(&self, st: Step) -> bool {
         st.0 == 5
     }
-    fn child<S: FldBase<Self>>(s: &S, st: Step) -> Option<Box<dyn Node>> {
+    fn child<S: FldBase<Self>>(s: &S, st: Step) -> Option<BNode> {
         match st {
             (5, _) => node::<Leaf, _>(s.clone().deref_field()),
             _ => None,
@@ -386,12 +553,12 @@ impl Val for Mid {
     fn has_child(&self, st: Step) -> bool {
         st.0 == 0 && (0..4).contains(&st.1)
     }
-    fn child<S: FldBase<Self>>(s: &S, st: Step) -> Option<Box<dyn Node>> {
+    fn child<S: FldBase<Self>>(s: &S, st: Step) -> Option<BNode> {
         match st {
-            (0, 0) => node(s.clone().x()),
-            (0, 1) => node(s.clone().l()),
-            (0, 2) => node(s.clone().o()),
-            (0, 3) => Some(Box::new(NKeyed(s.clone().k()))),
+            (0, 0) => node_sub(s.clone().x()),
+            (0, 1) => node_sub(s.clone().l()),
+            (0, 2) => node_sub(s.clone().o()),
+            (0, 3) => Some(Box::new(NKeyed::<S, Mid, Item>(s.clone().k()))),
             _ => None,
         }
     }
@@ -399,7 +566,7 @@ impl Val for Mid {
 
 impl Val for Root {
     fn enc(&self) -> Sexp {
-        Lst(vec![self.a.enc(), self.m.enc(), self.o.enc(), self.v.enc(), self.k.enc()])
+        Lst(vec![self.a.enc(), self.m.enc(), self.o.enc(), self.v.enc(), self.k.enc(), self.e.enc()])
     }
     fn dec(s: &Sexp) -> Self {
         Root {
@@ -408,18 +575,20 @@ impl Val for Root {
             o: Option::<Sub>::dec(s.at(2)),
             v: Vec::<Sub>::dec(s.at(3)),
             k: Vec::<Item>::dec(s.at(4)),
+            e: Choice::dec(s.at(5)),
         }
     }
     fn has_child(&self, st: Step) -> bool {
-        st.0 == 0 && (0..5).contains(&st.1)
+        st.0 == 0 && (0..6).contains(&st.1)
     }
-    fn child<S: FldBase<Self>>(s: &S, st: Step) -> Option<Box<dyn Node>> {
+    fn child<S: FldBase<Self>>(s: &S, st: Step) -> Option<BNode> {
         match st {
-            (0, 0) => node(s.clone().a()),
-            (0, 1) => node(s.clone().m()),
-            (0, 2) => node(s.clone().o()),
-            (0, 3) => node(s.clone().v()),
-            (0, 4) => Some(Box::new(NKeyed(s.clone().k()))),
+            (0, 0) => node_sub(s.clone().a()),
+            (0, 1) => node_sub(s.clone().m()),
+            (0, 2) => node_sub(s.clone().o()),
+            (0, 3) => node_sub(s.clone().v()),
+            (0, 4) => Some(Box::new(NKeyed::<S, Root, Item>(s.clone().k()))),
+            (0, 5) => node_sub(s.clone().e()),
             _ => None,
         }
     }
@@ -438,9 +607,12 @@ impl<T: Val> Val for Option<T> {
     fn has_child(&self, st: Step) -> bool {
         st.0 == 1 && self.is_some()
     }
-    fn child<S: FldBase<Self>>(s: &S, st: Step) -> Option<Box<dyn Node>> {
+    /// (1 0): `.unwrap()` (after the harness's own untracked look-ahead);
+    /// (1 1): `.map_untracked(|inner| inner)`, which does the look-ahead itself
+    fn child<S: FldBase<Self>>(s: &S, st: Step) -> Option<BNode> {
         match st {
-            (1, _) => node(s.clone().unwrap()),
+            (1, 1) => s.clone().map_untracked(|inner| inner).and_then(node_sub),
+            (1, _) => node_sub(s.clone().unwrap()),
             _ => None,
         }
     }
@@ -458,6 +630,35 @@ impl<T: Val> Val for Option<T> {
     }
 }
 
+/// collect the items of a double-ended iterator in collection order: dir 0 `next()`,
+/// 1 `.rev()`, 2 alternately `next()` / `next_back()` until the two ends meet
+fn collect_dir<I: DoubleEndedIterator>(mut it: I, dir: i64, mut f: impl FnMut(I::Item) -> Sexp) -> Vec<Sexp> {
+    match dir {
+        1 => {
+            let mut v: Vec<Sexp> = it.rev().map(f).collect();
+            v.reverse();
+            v
+        }
+        2 => {
+            let (mut front, mut back) = (vec![], vec![]);
+            loop {
+                match it.next() {
+                    Some(x) => front.push(f(x)),
+                    None => break,
+                }
+                match it.next_back() {
+                    Some(x) => back.push(f(x)),
+                    None => break,
+                }
+            }
+            back.reverse();
+            front.extend(back);
+            front
+        }
+        _ => it.map(f).collect(),
+    }
+}
+
 impl<T: Val> Val for Vec<T> {
     fn enc(&self) -> Sexp {
         Lst(self.iter().map(|x| x.enc()).collect())
@@ -472,35 +673,38 @@ impl<T: Val> Val for Vec<T> {
             _ => false,
         }
     }
-    fn child<S: FldBase<Self>>(s: &S, st: Step) -> Option<Box<dyn Node>> {
+    fn child<S: FldBase<Self>>(s: &S, st: Step) -> Option<BNode> {
         match st {
             (2, i) if i >= 0 => node(s.clone().at_unkeyed(i as usize)),
             _ => None,
         }
     }
-    fn iter_read<S: FldBase<Self>>(s: &S) -> Option<Sexp> {
-        Some(Lst(s
-            .clone()
-            .iter_unkeyed()
-            .map(|item| match item.try_read() {
-                Some(g) => g.deref().enc(),
-                None => Lst(vec![Num(-1)]),
-            })
-            .collect()))
+    fn iter_read<S: FldBase<Self>>(s: &S, dir: i64) -> Option<Sexp> {
+        Some(Lst(collect_dir(s.clone().iter_unkeyed(), dir, |item| match item.try_read() {
+            Some(g) => g.deref().enc(),
+            None => Lst(vec![Num(-1)]),
+        })))
     }
 }
 
 /// a type-erased store field
-pub trait Node {
+pub trait Node: Send + Sync {
     /// tracked read, serialised; `(-1)` if the field yields no guard.  how: 0 Read::try_read,
     /// 2 Get::try_get, 3 With::try_with, 4 Track::track + try_read_untracked,
-    /// 5 StoreField::track_field + reader, 1 iterate, 6 / 7 OptionStoreExt::map / invert
+    /// 5 StoreField::track_field + reader, 1 iterate, 6 / 7 OptionStoreExt::map / invert,
+    /// 8 Signal::from(subfield).try_get(), 9 iterate `.rev()`, 10 iterate from both ends,
+    /// 11 enum: the generated bool accessors + the value
     fn read(&self, how: i64) -> Sexp;
     /// untracked look at the current value: is the child addressed by `st` there?
     fn has_child(&self, st: Step) -> bool;
-    fn child(&self, st: Step) -> Option<Box<dyn Node>>;
-    /// `*field.write() = value`
-    fn set(&self, v: &Sexp) -> bool;
+    fn child(&self, st: Step) -> Option<BNode>;
+    /// write the value.  how: 0 `*field.try_write() = v`, 1 Set::try_set, 2 Update::try_update,
+    /// 3 Update::try_maybe_update -> (true, _), 4 `*StoreField::writer() = v` (fields whose raw
+    /// writer is their write guard: not the store itself, not a keyed collection)
+    fn set(&self, v: &Sexp, how: i64) -> bool;
+    /// write the value without notifying.  how: 0 Write::try_write_untracked,
+    /// 1 Update::try_maybe_update -> (false, _), 2 UpdateUntracked::try_update_untracked
+    fn set_untracked(&self, v: &Sexp, how: i64) -> bool;
     /// `field.patch(value)`
     fn patch(&self, v: &Sexp);
     fn path(&self) -> Vec<i64>;
@@ -508,83 +712,158 @@ pub trait Node {
     fn key_segs(&self) -> Option<Vec<(i64, i64)>> {
         None
     }
-    /// iterate (tracked) over a collection field, reading every item
-    fn iter_read(&self) -> Option<Sexp> {
-        None
+    /// for a keyed collection: `KeyedSubfield::update_keys()`
+    fn update_keys(&self) -> bool {
+        false
     }
 }
 
-/// a field, its value type, and how to hand it on as a type-erased `ArcField` (if possible)
-struct N<S, T: 'static>(S, PhantomData<T>, Option<fn(&S) -> ArcField<T>>);
+/// a field, its value type, and how to hand it on as a type-erased `ArcField` / `Field` /
+/// `Signal` (if possible)
+struct N<S, T: Send + Sync + 'static> {
+    f: S,
+    ty: PhantomData<T>,
+    arc: Option<fn(&S) -> ArcField<T>>,
+    fld: Option<fn(&S) -> Field<T>>,
+    sig: Option<fn(&S) -> Signal<T>>,
+}
 
-impl<T: Val, S: FldBase<T>> N<S, T> {
-    fn opt_read(&self, how: i64) -> Option<Sexp> {
-        T::opt_read(&self.0, how)
+fn none() -> Sexp {
+    Lst(vec![Num(-1)])
+}
+
+/// the read entry points every field type has
+fn read_common<T: Val, S: FldBase<T>>(f: &S, how: i64) -> Sexp {
+    match how {
+        2 => f.try_get().map(|v| v.enc()).unwrap_or_else(none),
+        3 => f.try_with(|v| v.enc()).unwrap_or_else(none),
+        4 => {
+            f.track();
+            f.try_read_untracked().map(|g| g.deref().enc()).unwrap_or_else(none)
+        }
+        5 => {
+            f.track_field();
+            f.reader().map(|g| g.deref().enc()).unwrap_or_else(none)
+        }
+        _ => match f.try_read() {
+            Some(g) => g.deref().enc(),
+            None => none(),
+        },
+    }
+}
+
+/// the write entry points every field type has (`raw`: may `StoreField::writer()` be used)
+fn set_common<T: Val, S: FldBase<T>>(f: &S, v: &Sexp, how: i64, raw: bool) -> bool {
+    let new = T::dec(v);
+    match how {
+        1 => {
+            // Set::try_set tells nothing about the guard: look first
+            if f.try_read_untracked().is_none() {
+                return false;
+            }
+            f.try_set(new).is_none()
+        }
+        2 => f.try_update(move |x| *x = new).is_some(),
+        3 => f
+            .try_maybe_update(move |x| {
+                *x = new;
+                (true, ())
+            })
+            .is_some(),
+        4 if raw => match f.writer() {
+            Some(mut g) => {
+                *g = new;
+                true
+            }
+            None => false,
+        },
+        _ => match f.try_write() {
+            Some(mut g) => {
+                *g = new;
+                true
+            }
+            None => false,
+        },
+    }
+}
+
+fn set_untracked_common<T: Val, S: FldBase<T>>(f: &S, v: &Sexp, how: i64) -> bool {
+    let new = T::dec(v);
+    match how {
+        1 => f
+            .try_maybe_update(move |x| {
+                *x = new;
+                (false, ())
+            })
+            .is_some(),
+        2 => f.try_update_untracked(move |x| *x = new).is_some(),
+        _ => match f.try_write_untracked() {
+            Some(mut g) => {
+                *g = new;
+                true
+            }
+            None => false,
+        },
     }
 }
 
 impl<T: Val, S: FldBase<T>> Node for N<S, T> {
     fn read(&self, how: i64) -> Sexp {
-        let none = || Lst(vec![Num(-1)]);
         match how {
-            1 => {
-                if let Some(v) = self.iter_read() {
+            1 | 9 | 10 => {
+                if let Some(v) = T::iter_read(&self.f, if how == 1 { 0 } else { how - 8 }) {
                     return v;
                 }
             }
             6 | 7 => {
-                if let Some(v) = self.opt_read(how) {
+                if let Some(v) = T::opt_read(&self.f, how) {
                     return v;
                 }
             }
-            2 => return self.0.try_get().map(|v| v.enc()).unwrap_or_else(none),
-            3 => return self.0.try_with(|v| v.enc()).unwrap_or_else(none),
-            4 => {
-                self.0.track();
-                return self.0.try_read_untracked().map(|g| g.deref().enc()).unwrap_or_else(none);
+            8 => {
+                if let Some(sig) = self.sig {
+                    return sig(&self.f).try_get().map(|v| v.enc()).unwrap_or_else(none);
+                }
             }
-            5 => {
-                self.0.track_field();
-                return self.0.reader().map(|g| g.deref().enc()).unwrap_or_else(none);
+            11 => {
+                if let Some(ok) = T::variant_read(&self.f) {
+                    let v = self.f.try_read_untracked().map(|g| g.deref().enc()).unwrap_or_else(none);
+                    return if ok { v } else { Lst(vec![Num(-2), v]) };
+                }
             }
             _ => {}
         }
-        match self.0.try_read() {
-            Some(g) => g.deref().enc(),
-            None => none(),
-        }
+        read_common::<T, S>(&self.f, how)
     }
     fn has_child(&self, st: Step) -> bool {
         // step kind 4: hand the field on type-erased, as an ArcField (4 0) or a Field (4 1)
-        self.0
+        self.f
             .try_read_untracked()
-            .map(|g| if st.0 == 4 { self.2.is_some() } else { g.deref().has_child(st) })
+            .map(|g| if st.0 == 4 { self.arc.is_some() } else { g.deref().has_child(st) })
             .unwrap_or(false)
     }
-    fn child(&self, st: Step) -> Option<Box<dyn Node>> {
+    fn child(&self, st: Step) -> Option<BNode> {
         if st.0 == 4 {
-            let erased: ArcField<T> = (self.2?)(&self.0);
-            return if st.1 == 0 { node::<T, _>(erased) } else { node_field::<T>(Field::from(erased)) };
+            // (4 0) ArcField::from(field); (4 1) Field::from(field) (each accessor type has its own
+            // From impl; Field::from(ArcField) is the chain (4 0) (4 1))
+            return if st.1 == 0 { node::<T, _>((self.arc?)(&self.f)) } else { node_field::<T>((self.fld?)(&self.f)) };
         }
-        T::child(&self.0, st)
+        T::child(&self.f, st)
     }
-    fn set(&self, v: &Sexp) -> bool {
-        match self.0.try_write() {
-            Some(mut g) => {
-                *g = T::dec(v);
-                true
-            }
-            None => false,
-        }
+    fn set(&self, v: &Sexp, how: i64) -> bool {
+        // the store's own raw writer is the building block of the composite accessors, not a
+        // write guard of its own (it notifies the root's `children` only)
+        let raw = self.f.path().into_iter().next().is_some();
+        set_common::<T, S>(&self.f, v, how, raw)
+    }
+    fn set_untracked(&self, v: &Sexp, how: i64) -> bool {
+        set_untracked_common::<T, S>(&self.f, v, how)
     }
     fn patch(&self, v: &Sexp) {
-        self.0.patch(T::dec(v));
+        self.f.patch(T::dec(v));
     }
     fn path(&self) -> Vec<i64> {
-        self.0.path().into_iter().map(seg).collect()
-    }
-    fn iter_read(&self) -> Option<Sexp> {
-        T::iter_read(&self.0)
+        self.f.path().into_iter().map(seg).collect()
     }
 }
 
@@ -594,81 +873,55 @@ fn seg(s: reactive_stores::StorePathSegment) -> i64 {
     d.trim_start_matches("StorePathSegment(").trim_end_matches(')').parse().unwrap_or(-1)
 }
 
-/// a keyed collection field (`#[store(key: i64 = |it| it.id)] Vec<Item>`)
-struct NKeyed<Inner, Prev>(KeyedSubfield<Inner, Prev, i64, Vec<Item>>)
+/// a keyed collection field (`#[store(key: i64 = |it| it.id)] Vec<E>`)
+struct NKeyed<Inner, Prev, E: Val>(KeyedSubfield<Inner, Prev, i64, Vec<E>>)
 where
-    KeyedSubfield<Inner, Prev, i64, Vec<Item>>: FldBase<Vec<Item>>;
+    KeyedSubfield<Inner, Prev, i64, Vec<E>>: FldBase<Vec<E>>;
 
-impl<Inner, Prev> Node for NKeyed<Inner, Prev>
+impl<Inner, Prev, E: Val> Node for NKeyed<Inner, Prev, E>
 where
     Inner: StoreField<Value = Prev> + Track + Clone + Send + Sync + 'static,
     Prev: 'static,
-    KeyedSubfield<Inner, Prev, i64, Vec<Item>>: FldBase<Vec<Item>>,
+    KeyedSubfield<Inner, Prev, i64, Vec<E>>: FldBase<Vec<E>>,
+    AtKeyed<Inner, Prev, i64, Vec<E>>: Fld<E>,
+    reactive_stores::AtIndex<KeyedSubfield<Inner, Prev, i64, Vec<E>>, Vec<E>>: Fld<E>,
 {
     fn read(&self, how: i64) -> Sexp {
-        let none = || Lst(vec![Num(-1)]);
-        match how {
-            1 => {
-                if let Some(v) = self.iter_read() {
-                    return v;
-                }
-            }
-            2 => return self.0.try_get().map(|v| v.enc()).unwrap_or_else(none),
-            3 => return self.0.try_with(|v| v.enc()).unwrap_or_else(none),
-            4 => {
-                self.0.track();
-                return self.0.try_read_untracked().map(|g| g.deref().enc()).unwrap_or_else(none);
-            }
-            5 => {
-                self.0.track_field();
-                return self.0.reader().map(|g| g.deref().enc()).unwrap_or_else(none);
-            }
-            _ => {}
+        if matches!(how, 1 | 9 | 10) {
+            let dir = if how == 1 { 0 } else { how - 8 };
+            return Lst(collect_dir(self.0.clone().into_iter(), dir, |item| match item.try_read() {
+                Some(g) => g.deref().enc(),
+                None => none(),
+            }));
         }
-        match self.0.try_read() {
-            Some(g) => g.deref().enc(),
-            None => none(),
-        }
+        read_common::<Vec<E>, _>(&self.0, how)
     }
     fn has_child(&self, st: Step) -> bool {
         self.0.try_read_untracked().map(|g| g.deref().has_child(st)).unwrap_or(false)
     }
-    fn child(&self, st: Step) -> Option<Box<dyn Node>> {
+    fn child(&self, st: Step) -> Option<BNode> {
         match st {
-            (3, k) => node::<Item, _>(AtKeyed::new(self.0.clone(), k)),
-            (2, i) if i >= 0 => node::<Item, _>(self.0.clone().at_unkeyed(i as usize)),
+            (3, k) => node::<E, _>(AtKeyed::new(self.0.clone(), k)),
+            (2, i) if i >= 0 => node::<E, _>(self.0.clone().at_unkeyed(i as usize)),
             _ => None,
         }
     }
-    fn set(&self, v: &Sexp) -> bool {
-        match self.0.try_write() {
-            Some(mut g) => {
-                *g = Vec::<Item>::dec(v);
-                true
-            }
-            None => false,
-        }
+    fn set(&self, v: &Sexp, how: i64) -> bool {
+        // the raw writer of a keyed collection does not refresh the keys: never used directly
+        set_common::<Vec<E>, _>(&self.0, v, how, false)
+    }
+    fn set_untracked(&self, v: &Sexp, how: i64) -> bool {
+        set_untracked_common::<Vec<E>, _>(&self.0, v, how)
     }
     fn patch(&self, v: &Sexp) {
-        self.0.patch(Vec::<Item>::dec(v));
+        self.0.patch(Vec::<E>::dec(v));
     }
     fn path(&self) -> Vec<i64> {
         StoreField::path(&self.0).into_iter().map(seg).collect()
     }
-    fn iter_read(&self) -> Option<Sexp> {
-        Some(Lst(self
-            .0
-            .clone()
-            .into_iter()
-            .map(|item| match item.try_read() {
-                Some(g) => g.deref().enc(),
-                None => Lst(vec![Num(-1)]),
-            })
-            .collect()))
-    }
     fn key_segs(&self) -> Option<Vec<(i64, i64)>> {
         let own = self.path().len();
-        let ids: Vec<i64> = self.0.try_read_untracked()?.deref().iter().map(|it| it.id).collect();
+        let ids: Vec<i64> = self.0.try_read_untracked()?.deref().iter().map(|it| it.key().unwrap_or(-1)).collect();
         Some(
             ids.into_iter()
                 .map(|k| {
@@ -677,6 +930,10 @@ where
                 })
                 .collect(),
         )
+    }
+    fn update_keys(&self) -> bool {
+        self.0.update_keys();
+        true
     }
 }
 
@@ -697,8 +954,8 @@ struct Roots {
 /// follow `chain` from the root as far as the current value allows (untracked look-ahead);
 /// returns the node reached and how many steps were taken.  A first step (4 2) starts from
 /// the `ArcStore` handle instead of the arena-allocated `Store`.
-fn walk(roots: &Roots, chain: &[Step]) -> (Box<dyn Node>, usize) {
-    let (mut cur, start): (Box<dyn Node>, usize) = if chain.first() == Some(&(4, 2)) {
+fn walk(roots: &Roots, chain: &[Step]) -> (BNode, usize) {
+    let (mut cur, start): (BNode, usize) = if chain.first() == Some(&(4, 2)) {
         (node::<Root, _>(roots.arc.clone()).unwrap(), 1)
     } else {
         (node::<Root, _>(roots.store).unwrap(), 0)
@@ -718,12 +975,36 @@ fn walk(roots: &Roots, chain: &[Step]) -> (Box<dyn Node>, usize) {
 /// What a reader does: read (tracked) the field its chain addresses.  If the chain is
 /// currently cut short by a `None` / a missing index / a missing key it reads nothing from
 /// the store (it is re-run only by its own `poke` trigger, see step 4).
+/// mode 0: the accessors are built afresh in every run; mode 1: the handle is built once (the
+/// first time the chain is fully there) and kept for the following runs, as long as every run
+/// finds the chain still there (a component that was handed the field keeps its handle).
 /// Observation: (steps taken, value read) or (steps taken).
-fn reader_body(roots: &Roots, chain: &[Step], how: i64) -> Sexp {
+fn reader_body(
+    roots: &Roots,
+    chain: &[Step],
+    how: i64,
+    mode: i64,
+    cache: &Mutex<Option<BNode>>,
+    owner: &Owner,
+) -> Sexp {
     let (n, j) = walk(roots, chain);
     if j == chain.len() {
-        Lst(vec![Num(j as i64), n.read(how)])
+        let v = if mode == 1 {
+            // a kept handle belongs to whoever handed it to the reader, not to one run of the
+            // reader's effect (an arena-allocated `Field` dies with its owner)
+            let kept = cache.lock().unwrap().take();
+            let kept = kept.unwrap_or_else(|| owner.with(|| walk(roots, chain).0));
+            let v = kept.read(how);
+            *cache.lock().unwrap() = Some(kept);
+            v
+        } else {
+            n.read(how)
+        };
+        Lst(vec![Num(j as i64), v])
     } else {
+        if mode == 1 {
+            cache.lock().unwrap().take();
+        }
         Lst(vec![Num(j as i64)])
     }
 }
@@ -749,13 +1030,19 @@ fn n_tasks() -> usize {
     EXEC.with(|e| e.borrow().tasks.len())
 }
 
-/// (0 init readers steps sched key-orders read-kinds subscriber-kinds)
+/// optional element of a list
+fn opt_num(s: &Sexp, i: usize) -> i64 {
+    s.list().get(i).map(|x| x.num()).unwrap_or(0)
+}
+
+/// (0 init readers steps sched key-orders read-kinds subscriber-kinds handle-modes)
 fn c16(c: &Sexp) -> Sexp {
     exec_reset();
     let init = Root::dec(c.at(1));
     let readers: Vec<Vec<Step>> = c.at(2).list().iter().map(steps_of).collect();
     let sched = c.at(4).nums();
     let mut spos = 0usize;
+    let nth = |i: usize, rid: usize| c.list().get(i).map(|l| opt_num(l, rid)).unwrap_or(0);
 
     let owner = Owner::new();
     owner.set();
@@ -777,15 +1064,18 @@ fn c16(c: &Sexp) -> Sexp {
         let chain = chain.clone();
         let log = log.clone();
         let poke = pokes[rid].clone();
-        let how = c.at(6).at(rid).num();
+        let how = nth(6, rid);
+        let mode = nth(8, rid);
         let store = store.clone();
+        let cache: Arc<Mutex<Option<BNode>>> = Arc::new(Mutex::new(None));
+        let case_owner = owner.clone();
         let body = move || {
             poke.track();
-            let v = reader_body(&store, &chain, how);
+            let v = reader_body(&store, &chain, how, mode, &cache, &case_owner);
             log.lock().unwrap().push(Lst(vec![Num(rid as i64), v.clone()]));
             v
         };
-        match c.at(7).at(rid).num() {
+        match nth(7, rid) {
             1 => keep_immediate.push(ImmediateEffect::new(move || {
                 body();
             })),
@@ -837,14 +1127,17 @@ fn c16(c: &Sexp) -> Sexp {
         }
         let chain = steps_of(st.at(1));
         let (n, j) = walk(&roots, &chain);
+        let how = opt_num(st, 3);
         let mut done = 0;
         if j == chain.len() {
             match op {
-                0 => done = n.set(st.at(2)) as i64,
+                0 => done = n.set(st.at(2), how) as i64,
                 1 => {
                     n.patch(st.at(2));
                     done = 1
                 }
+                5 => done = n.set_untracked(st.at(2), how) as i64,
+                6 => done = n.update_keys() as i64,
                 2 => {
                     // report the path segments of the addressed field
                     drain(&sched, &mut spos);
